@@ -6,6 +6,7 @@ import StepModel.ComplexForest3
 import StepModel.ComplexForestAgree
 import StepModel.ComplexInitLemmas
 import StepModel.ComplexAccept
+import StepModel.ComplexOrFreeTop
 /-!
 # C08 — complex instances are accepted exactly when the supertype constraints allow them
 
@@ -103,6 +104,26 @@ ONEOF/AND/ANDOR rule, ABSTRACT) are the matcher ⟷ `evalB` link, which is teste
 theorem C08_sound_root_partial (c : Collect) (parts : List Name) (h : supports c [] parts = .ok true) :
     ∃ hd ∈ c, ∃ r rest, hd = .and (.simple r :: rest) ∧ r ∈ parts ∧ ∀ n ∈ parts, n ∈ leaves hd :=
   accept_needs c parts h
+
+/-- **Soundness and completeness of the matcher, partial: the OR-free fragment.**  For every collect all of whose
+lists are OR-free (SimpleList / AndList / AndOrList only: no ONEOF and no non-abstract sub-supertype, whose `OR(simple,
+list)` is an OrList), well formed (`treeWF`, head = `AND(supertype, …)`) with pairwise distinct leaf names, and every
+request without multiply-inheriting members (any order, any repetition): whenever `supports` answers (no crash, fuel
+left), it answers `true` exactly when the plain meaning `evalB` of the collect holds.  Proved through explicit marks
+(`Mk`, `placed`): `matchNonORs` marks exactly the cover of a satisfied list — also through `AndOrList`'s early return —
+and `unmarkAll` removes exactly the marks an UNSATISFIED child set.  Excluded: collects with an OrList (backtracking
+`matchORs`/`tryNext`: tested only), requests with multiply-inheriting members (false there: `C08_sound_witness`),
+repeated leaf names. -/
+theorem C08_sound_complete_partial (c : Collect) (hc : ∀ h ∈ c, orFreeHead h) (parts : List Name) (b : Bool)
+    (hs : supports c [] parts = .ok b) : b = true ↔ evalB c [] parts = true :=
+  orfree_sound_complete c hc parts b hs
+
+/-- the hypotheses are satisfiable: `a ABSTRACT SUPERTYPE OF (b AND (c ANDOR d))` -/
+example : ∀ b, supports [.and [.simple 0, .and [.simple 1, .andor [.simple 2, .simple 3]]]] [] [1, 0, 3] = .ok b →
+    (b = true ↔ evalB [.and [.simple 0, .and [.simple 1, .andor [.simple 2, .simple 3]]]] [] [1, 0, 3] = true) :=
+  fun b => C08_sound_complete_partial _ (by
+    intro h hh; simp only [List.mem_singleton] at hh; subst hh
+    exact ⟨by decide, by decide, by decide, _, _, rfl⟩) _ b
 
 -- ------------------------------------------------------------------ the tree construction is right (induction on the expression)
 /-- **Every nesting of ONEOF/AND/ANDOR, every kind of parent list** (supertype head, AND, ANDOR, OR — with and without
